@@ -8,7 +8,7 @@
    lenient \ strict are the ones "within 1e-5 of a threshold" that the property excludes. *)
 From Coq Require Import List ZArith Bool Arith.
 Import ListNotations.
-Require Import MD.Gen.HbondTables MD.Hbond.Model MD.Hbond.KsModel.
+Require Import MD.Gen.HbondTables MD.Hbond.Model MD.Hbond.Angle MD.Hbond.KsModel.
 Local Open Scope Z_scope.
 
 Definition q := (Z * Z)%type.                       (* rational n/d, d > 0 *)
@@ -35,16 +35,19 @@ Definition sandwich (strict lenient impl : list triplet) : bool := subseq strict
 Definition bh_case :=
   (bool * bool * bool * q * option q * option q * q * q * Z * topo * list frame)%type.
 
-Definition bh_params_of (ew sc per : bool) (freq cut_nm ang_deg : q) (G : Z) : bh_params :=
-  mkBH ew sc per freq (q_scale G cut_nm) (bh_cos_of_degrees (fst ang_deg) (snd ang_deg)).
+(* the angle threshold enters as a rational bound on cos(angle_cutoff): sure = lower end of the proved
+   enclosure of cos (a passing triplet certainly has angle > angle_cutoff, Hbond/AngleR.v bh_wide_sure_sound),
+   maybe = upper end (every triplet with angle > angle_cutoff passes, bh_wide_maybe_complete) *)
+Definition bh_params_of (sure : bool) (ew sc per : bool) (freq cut_nm ang_deg : q) (G : Z) : bh_params :=
+  mkBH ew sc per freq (q_scale G cut_nm) (if sure then bh_cos_sure ang_deg else bh_cos_maybe ang_deg).
 
 Definition run_bh_k (K : consts) (c : bh_case) : result (list triplet * list triplet) :=
   match c with
   | (ew, sc, per, freq, cut, ang, gd, ga, G, t, fs) =>
     let cut0 := match cut with Some x => x | None => c_bh_cut K end in
     let ang0 := match ang with Some x => x | None => c_bh_ang K end in
-    let ps := bh_params_of ew sc per freq (q_sub cut0 gd) (q_add ang0 ga) G in
-    let pl := bh_params_of ew sc per freq (q_add cut0 gd) (q_sub ang0 ga) G in
+    let ps := bh_params_of true ew sc per freq (q_sub cut0 gd) (q_add ang0 ga) G in
+    let pl := bh_params_of false ew sc per freq (q_add cut0 gd) (q_sub ang0 ga) G in
     match baker_hubbard ps t fs, baker_hubbard pl t fs with
     | Ok s, Ok l => Ok (s, l)
     | _, _ => ErrNoBonds
